@@ -171,6 +171,27 @@ def deadlinesVacancy (w : World) (h : Nat) (faultsEnd : Nat) (t : Nat) : World :
       failW acc "C06" "vacancy-not-filled" s!"key {kv.1} vacant since {kv.2} (candidates healthy since {since}), nobody leads at {t}; candidates {cands.map (·.cfg.id)}"
     else acc) w
 
+/-- C10 promptness: in fault-free conditions with latencies up to H/10, a strictly higher-priority takeover-enabled
+    follower next to a lower-priority owner leads (or the record has changed hands) within three heartbeat intervals. -/
+def deadlinesTakeover (w : World) (h : Hyp) (t : Nat) : World :=
+  if ¬ (h.responsive ∧ h.noOutside ∧ h.faultsEnd = 0 ∧ h.maxLat > 0) then w else
+  w.insts.foldl (fun acc x =>
+    if ¬ (x.cfg.takeover ∧ x.everStarted ∧ x.stopCalledSince.isNone ∧ ¬ x.cut ∧ ¬ x.flag ∧ 10 * h.maxLat ≤ x.cfg.hb) then acc else
+    match acc.live x.cfg.key, acc.ownerSince.lookup x.cfg.key with
+    | some r, some (oid, since) =>
+      (match r.val, storedPrio r.val with
+       | .own id _ _, some p =>
+         let ownerOk := match acc.inst? id with
+           | some o => o.flag && !o.cut && o.stopCalledSince.isNone && decide (10 * h.maxLat ≤ o.cfg.hb)
+           | none => false
+         let s0 := max since x.candidateSince
+         if id != x.cfg.id && oid == (id : Int) && decide (x.cfg.prio > p) && ownerOk && decide (s0 + 3 * x.cfg.hb < t) && !x.takeoverLateReported then
+           failW (acc.updInst x.cfg.id fun y => { y with takeoverLateReported := true }) "C10" "takeover-not-prompt"
+             s!"instance {x.cfg.id} (priority {x.cfg.prio}, takeover enabled) has been a follower of {id} (priority {p}) since {s0}; three heartbeat intervals later ({t}) it still does not lead"
+         else acc
+       | _, _ => acc)
+    | _, _ => acc) w
+
 def deadlines (w : World) (t : Nat) : World :=
   w.insts.foldl (fun acc x =>
     let acc := match x.graceDue with
@@ -245,9 +266,10 @@ def recordLost (w : World) (h : Hyp) (key : String) (before : Option Rec) : Worl
 def step (m : MState) (e : TEv) : MState :=
   -- after `end` the harness tears the scenario down: no obligation is evaluated any more
   if m.w.ended && (match e.ev with | .gor _ => false | _ => true) then { m with w := { m.w with line := m.w.line + 1, now := e.t } } else
-  let w0 := deadlines { m.w with line := m.w.line + 1 } e.t
-  let w0 := deadlinesHB w0 e.t
-  let w0 := deadlinesVacancy w0 m.hyp.maxLat m.hyp.faultsEnd e.t
+  -- (the final goroutine count comes after `end`, when the harness has torn everything down: no deadline applies then)
+  let w0 : World := { m.w with line := m.w.line + 1 }
+  let w0 := if m.w.ended then w0 else
+    deadlinesTakeover (deadlinesVacancy (deadlinesHB (deadlines w0 e.t) e.t) m.hyp.maxLat m.hyp.faultsEnd e.t) m.hyp e.t
   let w0 := { w0 with now := e.t }
   let h := m.hyp
   -- after `end` the harness tears the scenario down (stops every instance); only the final goroutine count matters
@@ -292,6 +314,11 @@ def step (m : MState) (e : TEv) : MState :=
             | _ => "C01:delete")
           let w := checkW w ok "C01" (if p.kind = .update ∧ ¬ isRefresh w x p then "illegitimate-takeover" else "illegitimate-mutation")
                     s!"instance {x.cfg.id} {repr p.kind} exp={p.exp} val={repr p.val} over {repr (w.live p.key)}: {why}"
+          -- C10: the same judgement for the replacement of somebody else's record
+          let w := if p.kind = .update ∧ ¬ isRefresh w x p then
+              (checkW w ok "C10" "takeover-without-rights"
+                s!"instance {x.cfg.id} (priority {x.cfg.prio}, takeover {x.cfg.takeover}) replaces {repr (w.live p.key)}: {why}").hit "C10:takeover"
+            else w
           -- C05: acquisitions publish a never-seen token; refreshes republish the same one
           let w := match p.kind, p.val with
             | .create, .own _ tok _ => checkW w (¬ w.tokensSeen.contains tok) "C05" "token-reused" s!"create by {x.cfg.id} republishes token {tok}"
